@@ -300,7 +300,7 @@ def nontrivial(case, impl):
 # generators
 # ---------------------------------------------------------------------------
 def _structured(rng, small=False):
-    dt = rng.choice([0.5, 1, 2, 3, 5, 7, 0.1, 1.3, 2.5, 10])
+    dt = rng.choice([0.5, 1, 2, 3, 5, 7, 0.1, 1.3, 2.5, 10, 0.6, 1.2, 0.12, 0.3, 0.7, 0.9, 1.1, 0.35])
     rate = rng.choice([0.5 / 60, 0.1, 0.25, 0.5, 1, 2, 2.5, 1 / 3, 0.7, 0.05])
     start = rng.choice([20, 20.0, 5, 0, -5, 12.5, rng.uniform(-10, 30)])
     span = rng.choice([0, 0.3, 1, 5, 25, 40, rng.uniform(0, 50)])
@@ -321,7 +321,9 @@ def _structured(rng, small=False):
     ramp = span / rate
     tot_h = sum(h[1] for h in holds)
     t_tot = rng.choice([0, dt / 3, dt, ramp, ramp + tot_h, ramp + tot_h + 7.3 * dt, (ramp + tot_h) * 0.6,
-                        dt * rng.randint(1, 60), dt * rng.uniform(0, 80)])
+                        dt * rng.randint(1, 60), dt * rng.uniform(0, 80),
+                        # "round" totals that are multiples of dt only up to rounding
+                        round(dt * rng.randint(1, 120), 6), float(rng.choice([3, 6, 12, 30, 60, 90, 120]))])
     # keep the number of samples moderate
     nmax = 300 if small else 3000
     if t_tot / dt > nmax:
@@ -332,7 +334,7 @@ def _structured(rng, small=False):
                 holds=(holds if nh else None), isList=True, dt=dt)
     if nh == 1 and rng.random() < 0.5:
         case["isList"] = False
-    if t_tot / dt <= 40 and rng.random() < 0.3:
+    if t_tot / dt <= 400:
         case["flake"] = True
     return case
 
@@ -353,7 +355,7 @@ def _exact(rng):
     t_tot = rng.choice([0, 0.125, 1, 7, 7.5, 33, 64.25, 100, 250.5])
     return dict(kind="exact", exact=True, t_tot=t_tot, start=start, stop=stop, rate=rate,
                 holds=(holds if nh else None), isList=True, dt=dt,
-                flake=(t_tot / dt <= 40 and rng.random() < 0.3))
+                flake=(t_tot / dt <= 400))
 
 
 def _malformed(rng):
